@@ -3,6 +3,7 @@ pub mod c02;
 pub mod c03;
 pub mod c07;
 pub mod c09;
+pub mod c10;
 pub mod c11;
 pub mod c12;
 pub mod c13;
@@ -23,6 +24,7 @@ pub fn dispatch(prop: &str) -> Option<(RunFn, ReplayFn)> {
         "C03" => (c03::run, c03::replay),
         "C07" => (c07::run, c07::replay),
         "C09" => (c09::run, c09::replay),
+        "C10" => (c10::run, c10::replay),
         "C11" => (c11::run, c11::replay),
         "C12" => (c12::run, c12::replay),
         "C13" => (c13::run, c13::replay),
